@@ -296,9 +296,15 @@ func (s *Stage) Receive(file *sts.Partial, reader io.Reader) (err error) {
 	if _, err = fh.Seek(part.Beg, 0); err != nil {
 		return
 	}
-	_, err = io.Copy(fh, reader)
+	n, err := io.Copy(fh, reader)
 	fh.Close()
 	if err != nil {
+		return
+	}
+	if n != part.End-part.Beg {
+		// The part ended early; it must not go on record as received
+		err = fmt.Errorf("part %d:%d of %s is incomplete: %d byte(s) received",
+			part.Beg, part.End, file.Name, n)
 		return
 	}
 
